@@ -2,14 +2,41 @@
 """Regenerates /verif/MANIFEST.json from the table below (kept in one place so the manifest is always valid)."""
 import json, subprocess, sys
 
+PBT = "property-based testing: proptest-seeded choice sequences decoded into cases, custom shrinker, explicit oracle"
 CHECKS = {
-    "C04": dict(
-        engine="E1-pure",
-        technique="property-based testing (proptest-seeded choice sequences) + exhaustive small-scope enumeration against an LWW reference model",
-        text="Randomised exploration (2M generated arrival orders per quick run, 200M thorough) plus exhaustive enumeration of all arrival sequences of <=3 ops in a small scope, each compared step by step with an independent last-writer-wins model; finds counterexamples, proves nothing.",
-        note="Trusts the harness's 15-line LWW model and the field-wise Stamp ordering; stamps are drawn >= 1 h after the datacake epoch and inside a 3000 s window (the property's precondition).",
-        ref="3 C04",
-    ),
+    "C02": dict(engine="E2-actor", technique=PBT + " (model-based: storage contents vs deserialised set after every request, injected storage faults)",
+        text="Randomised request histories (300k quick / 10M thorough) against the real KeyspaceGroup actors on an inspectable fault-injecting store; set and store are compared after every request. Exploration: finds counterexamples, proves nothing.",
+        note="Trusts ModelStore (harness Storage implementation that honours the BulkMutationError contract) and the view obtained through Serialize + diff-against-empty.", ref="3 C02"),
+    "C03": dict(engine="E1-pure", technique=PBT + " (algebraic laws of merge on generated replica triples)",
+        text="1M (quick) / 60M (thorough) generated replica triples satisfying the statement's precondition by construction; commutativity, associativity, idempotence, schedule independence and lookup agreement are checked on each.",
+        note="Replicas are built from operations only (never purged): with purged tombstones the laws do not hold by design, which the statement does not claim (DESIGN.md 3 C03).", ref="3 C03"),
+    "C04": dict(engine="E1-pure", technique=PBT + " + exhaustive small-scope enumeration against an LWW reference model",
+        text="2M generated arrival orders per quick run (200M thorough) plus exhaustive enumeration of all arrival sequences of <=3 ops in a small scope, each compared step by step with an independent last-writer-wins model.",
+        note="Trusts the harness's LWW model and field-wise Stamp ordering; stamps are drawn >= 1 h after the datacake epoch and inside a 3000 s window (the property's precondition).", ref="3 C04"),
+    "C05": dict(engine="E1-pure", technique=PBT + " (exactness oracle for diff + metamorphic 'apply the diff, nothing is left')",
+        text="2M (quick) / 100M (thorough) generated replica pairs incl. purged ones; the diff is compared with an independently computed expectation and then applied the way the keyspace actor applies it.",
+        note="The purge cut-off of a replica is observed through a will_apply probe on an unused key (the statement's 'purge cut-off for that origin').", ref="3 C05"),
+    "C07": dict(engine="E2-actor", technique=PBT + " (crash-point injection incl. inside a request, rebuilt state vs storage)",
+        text="100k (quick) / 5M (thorough) histories with a generated stop point between or inside requests (storage write done, set not updated), one or two restarts; the rebuilt set is compared with storage and with what was acknowledged.",
+        note="Process death is modelled by fencing the old storage handle; durability of the bundled backends themselves is C17's subject.", ref="3 C07"),
+    "C08": dict(engine="E1-pure", technique=PBT + " (invariants around purge_old_deletes on generated hour-scale histories)",
+        text="300k (quick) / 20M (thorough) single-replica histories spanning hours with purges at generated points: live set unchanged, only tombstones removed, stale operations from the deleting node refused ever after.",
+        note="Local facts only so far; the cluster-level comparison (purging vs non-purging run) is added by the E2 part when present in the evidence file.", ref="3 C08"),
+    "C09": dict(engine="E1-pure", technique=PBT + " (stateful send/recv sequences with an injected wall clock, invariant after every call)",
+        text="400k (quick) / 30M (thorough) sequences of up to 60 calls with stalls, backward jumps and drift-limit boundary values of the wall clock and of remote stamps.",
+        note="Needs hook H-clock (injectable wall clock). The drift limit 4100 s is taken from the crate's documented constant.", ref="3 C09"),
+    "C10": dict(engine="E1-pure", technique=PBT + " + exhaustive boundary grid (round-trips, order isomorphism, parser robustness)",
+        text="1M generated stamp pairs, the exhaustive 5600-value boundary grid (31M ordered pairs), a regression corpus and 2M generated strings per quick run.",
+        note="from_u64 on words whose fractional byte is >= 250 is outside the claim.", ref="3 C10"),
+    "C12": dict(engine="E1-pure", technique=PBT + " (round-trip + exhaustive single-bit-flip / truncation / crafted-short-frame mutation of every generated frame)",
+        text="6000 generated messages per quick run (300k thorough), each expanded into all single-bit flips (frames <= 4 KiB), all truncations and crafted short frames with correct checksums: about 60M mutated frames per quick run.",
+        note="Frame level only so far (DataView::using); an independent CRC32 decides whether a damaged frame must be refused.", ref="3 C12"),
+    "C15": dict(engine="E1-pure", technique=PBT + " (validity predicate in both directions over selection histories on shared cursors)",
+        text="300k (quick) / 30M (thorough) layouts x selection histories through the public NodeSelector trait.",
+        note="Needs hook H-rng for reproducible data-centre choice; the oracle holds for every RNG outcome.", ref="3 C15"),
+    "C18": dict(engine="E2-actor", technique=PBT + " (generated yield schedules on a current-thread runtime + sampled OS schedules on 4 workers)",
+        text="20k generated schedules on a current-thread runtime (interleaving fully determined by generated yields) and 300 x 10 runs on a 4-worker runtime.",
+        note="Schedules are sampled, not enumerated; a race needing preemption inside a non-awaiting section would be missed.", ref="3 C18"),
 }
 
 NOT_YET = "check not built yet in this round (see DESIGN.md section 10 for the build order)"
@@ -17,6 +44,8 @@ NOT_YET = "check not built yet in this round (see DESIGN.md section 10 for the b
 def main():
     props = [json.loads(l)["id"] for l in open("/verif/properties.jsonl")]
     hooks = json.load(open("/verif/tools/hooks.json"))
+    log = subprocess.run("git -C /repo log --format=%h::%s", shell=True, capture_output=True, text=True).stdout
+    hooks["source_commits"] = [l.split("::")[0] for l in log.splitlines() if l.split("::")[1].startswith("verif hook")]
     checks = []
     for pid in props:
         if pid not in CHECKS:
@@ -40,6 +69,7 @@ def main():
         "hooks": hooks,
         "engines": [
             {"name": "E1-pure", "path": "harness/src", "serves_properties": [p for p in props if CHECKS.get(p, {}).get("engine") == "E1-pure"], "kind_free_text": "direct synchronous calls into datacake-crdt / datacake-rpc / datacake-node types, cases decoded from proptest-generated choice sequences"},
+            {"name": "E2-actor", "path": "harness/src/e2.rs", "serves_properties": [p for p in props if CHECKS.get(p, {}).get("engine") == "E2-actor"], "kind_free_text": "real KeyspaceGroup/KeyspaceActor/Clock on a paused-time current-thread tokio runtime over an inspectable fault-injecting Storage"},
         ],
         "checks": checks,
         "notes": "All checks: exit 0 held / exit 1 + VIOLATION line / exit 2 inconclusive (build failure or watchdog). Seeds: VERIF_SEED (0 remapped). known_findings.json lists recorded and fixed defects.",
